@@ -140,7 +140,10 @@ void h_set_chunk_valid(void) {
 /* requested-range list of 1..3 entries, each pointing at one of the target chunks */
 static zckDL *mk_dl(IN_dl *in, zckCtx *zck) {
     mk_targets(in, zck);
-    V_ASSUME(in->n_rng >= 1 && in->n_rng <= 3);
+#ifndef VERIF_DL_NMAX
+#define VERIF_DL_NMAX 3
+#endif
+    V_ASSUME(in->n_rng >= 1 && in->n_rng <= VERIF_DL_NMAX && in->n_tgt <= VERIF_DL_NMAX);
     zckRange *range = malloc(sizeof(*range));
     V_ASSUME(range != NULL);
     *range = in->anyrange;
@@ -196,7 +199,7 @@ void h_dl_write_range(void) {
     V_ASSERT((g_ww_hit == in.ww_hit0 && g_ww_val == in.ww_val0) || off_in_open_extent(&in, zck, valid0), "C05,C17.dl_write_range.only_extents_of_requested_chunks_that_are_not_valid_are_written");
     for(int i = 0; i < 3; i++) V_ASSERT(g_rg[i] == NULL || valid0[i] != 1 || g_rg[i]->src->valid == 1, "C05.dl_write_range.valid_chunks_stay_valid");
     V_ASSERT(zck->error_state > 0 || dl_state_ok(&in, dl), "C05,C17.dl_write_range.state_invariant_kept_on_every_return");
-    V_COVER(r > 0 && (size_t)r == in.len && in.wic > 0 && in.wic < in.len && dl->write_in_chunk > 0 && in.n_rng == 3);      /* finished one chunk, verified it, started the next */
+    V_COVER(r > 0 && (size_t)r == in.len && in.wic > 0 && in.wic < in.len && dl->write_in_chunk > 0 && in.n_rng >= 2);      /* finished one chunk, verified it, started the next */
     V_COVER(r == 0 && in.err0 == 0 && zck->error_state == 0 && in.wic > 0 && in.chk >= 0 && g_rg[in.chk]->src->valid == -1);   /* checksum mismatch */
     V_COVER(r > 0 && in.wic == 0 && in.chk < 0 && dl->tgt_check != NULL);   /* matched a chunk from idle */
     V_COVER(r == 0 && in.len > 0 && in.err0 == 0 && zck->error_state == 0 && in.wic == 0 && dl->tgt_check == NULL);   /* nobody expects these bytes */
